@@ -56,7 +56,7 @@ def check(F, R):
     for p in CHAIN:
         f = find_fn(F, p)
         if f is None or "body" not in f:
-            R.ob("PURE-FORWARD", p + ":anchor", False, "", "function not found")
+            R.ob("PURE-FORWARD", p + ":anchor", False, "", "function not found", undecided=True)
             continue
         R.fn(f["path"])
         ar = arithmetic_in(f["body"])
@@ -93,14 +93,17 @@ def check(F, R):
                         guard_ok = any(x is somes[0] for x in walk(i["else"])) if i.get("else") else False
             ok = is_dual and name_ok and guard_ok and len(nones) == 1
             detail = "collector yields (%s, %s); dual of the paired reference: %s; name from the same tuple: %s; unnamed rows filtered by is_empty: %s" % (sexp(name_e), sexp(val_e), is_dual, name_ok, guard_ok)
-        R.ob("PAIRING", "collect_good_lp_duals", ok, F.loc(f), detail)
+        # the collector is recognised as one closure over (name, reference) with an if/else on the name; any other
+        # spelling (filter + map, a loop) is undecided here and left to the adapters clause below
+        recognised = "collector yields" in detail
+        R.ob("PAIRING", "collect_good_lp_duals", ok, F.loc(f), detail, undecided=not recognised or "filtered by is_empty: False" in detail and "dual of the paired reference: True; name from the same tuple: True" in detail)
         # no reordering / extra filtering
         bad = [x["name"] for x in walk(f["body"]) if x.get("k") == "MCall" and x["name"] in ("rev", "skip", "zip", "enumerate", "sort", "sort_by", "take", "step_by")]
         R.ob("PAIRING", "collect_good_lp_duals:adapters", not bad, F.loc(f), "adapters that could mis-pair names and references: %s" % bad)
     # 3. the (name, reference) pairs are built in one loop iteration
     g = F.fn("solvers::good_lp::solve_with_good_lp")
     if g is None:
-        R.ob("PAIRING", "solve_with_good_lp:anchor", False, "", "bridge not found")
+        R.ob("PAIRING", "solve_with_good_lp:anchor", False, "", "bridge not found", undecided=True)
         return
     R.fn(g["path"])
     lf = LocalFlow(g["body"])
@@ -120,7 +123,7 @@ def check(F, R):
                     name_def = [sexp(d) for i in free_locals(t["es"][0]) for d in lf.defs.get(i, [])]
                     ok = bool(loopvars & r_name) and bool(loopvars & r_ref) and in_loop and any(".name()" in d for d in name_def)
                     detail = "pair %s: name defined by %s, reference by %s in the same iteration: %s" % (sexp(t), name_def, [sexp(a) for a in add], in_loop)
-    R.ob("PAIRING", "solve_with_good_lp:same-iteration", ok, F.loc(g), detail)
+    R.ob("PAIRING", "solve_with_good_lp:same-iteration", ok, F.loc(g), detail, undecided=detail.startswith("no loop"))
     # extract_duals result reaches with_shadow_prices untouched
     ws = [n for n in walk(g["body"]) if n.get("k") == "MCall" and n["name"] == "with_shadow_prices"]
     ok = False
@@ -130,7 +133,7 @@ def check(F, R):
         defs = [strip(d) for i in free_locals(a) for d in lf.defs.get(i, [])]
         ok = a.get("k") == "Path" and len(defs) == 1 and defs[0].get("k") == "Call" and "constraint_references" in sexp(defs[0])
         detail = "with_shadow_prices(%s) <- %s" % (sexp(a), [sexp(d) for d in defs])
-    R.ob("PURE-FORWARD", "solve_with_good_lp:duals-unmodified", ok, F.loc(g), detail)
+    R.ob("PURE-FORWARD", "solve_with_good_lp:duals-unmodified", ok, F.loc(g), detail, undecided=True)
     # 4. Clarabel extraction closure is the collector applied to the computed duals
     c = F.fn("solvers::clarabel::solve_real_lp_problem_clarabel")
     if c is not None:
@@ -143,7 +146,7 @@ def check(F, R):
             call = [x for x in walk(cl[0]["body"]) if x.get("k") == "Call" and norm(x.get("callee") or "").endswith("collect_good_lp_duals")][0]
             ar = arithmetic_in(cl[0]["body"])
             second = free_locals(call["args"][1]) == {binds[1][0]} if len(binds) == 2 else False
-            first_src = [sexp(d) for i in free_locals(call["args"][0]) for d in LocalFlow(cl[0]["body"]).defs.get(i, [])]
+            first_src = [sexp(call["args"][0])] + [sexp(d) for i in free_locals(call["args"][0]) for d in LocalFlow(cl[0]["body"]).defs.get(i, [])]
             ok = second and not ar and any("compute_dual" in d for d in first_src)
             detail = "closure %s: references forwarded: %s, duals from %s, arithmetic: %s" % (sexp(cl[0])[:120], second, first_src, ar)
-        R.ob("PURE-FORWARD", "clarabel:extract-closure", ok, F.loc(c), detail)
+        R.ob("PURE-FORWARD", "clarabel:extract-closure", ok, F.loc(c), detail, undecided=(len(cl) != 1) or not ar)
